@@ -16,27 +16,48 @@ type TXTPublic struct {
 }
 
 // ReadAt implements types.SystemArtifact.
+//
+// A read starts at the address of a register and continues through the
+// registers that follow it without a gap until `p` is full.
 func (c *TXTPublic) ReadAt(p []byte, off int64) (n int, err error) {
+	var out = bytesextra.NewReadWriteSeeker(p)
+	for {
+		r, err := c.registerAt(off + int64(n))
+		if err != nil {
+			return n, err
+		}
+		err = binary.Write(out, binary.LittleEndian, r.Value())
+		n = int(out.CurrentPosition)
+		if err != nil || n >= len(p) {
+			return n, err
+		}
+	}
+}
+
+// registerAt returns the register which starts at offset `off` of the TXT public space.
+func (c *TXTPublic) registerAt(off int64) (registers.Register, error) {
 	for _, r := range c.Registers {
 		offset := int64(r.Address() - registers.TxtPublicSpace)
 		if offset < 0 {
-			return 0, fmt.Errorf("internal error: a non TXT-register %T:%#+v in the TXT-registers collection", r, r)
+			return nil, fmt.Errorf("internal error: a non TXT-register %T:%#+v in the TXT-registers collection", r, r)
 		}
-		l := int64(r.BitSize() / 8)
+		// the width of the value as it is written out (BitSize() is an uint8 and
+		// cannot express the 256 bits of TXT.PUBLIC.KEY)
+		l := int64(binary.Size(r.Value()))
+		if l < 0 {
+			l = int64(r.BitSize() / 8)
+		}
 		if off < offset || off >= offset+l {
 			continue
 		}
 
 		if off != offset {
-			return 0, fmt.Errorf("request address 0x%X is not aligned with register address 0x%X", off, offset)
+			return nil, fmt.Errorf("request address 0x%X is not aligned with register address 0x%X", off, offset)
 		}
-
-		var out = bytesextra.NewReadWriteSeeker(p)
-		err := binary.Write(out, binary.LittleEndian, r.Value())
-		return int(out.CurrentPosition), err
+		return r, nil
 	}
 
-	return 0, fmt.Errorf("the register with address 0x%X was not found", off)
+	return nil, fmt.Errorf("the register with address 0x%X was not found", off)
 }
 
 // Size implements types.SystemArtifact.
